@@ -92,6 +92,7 @@ class Report:
             (k["property"], k["fingerprint"]): k for k in known.get("open", [])
         }
         lines = []
+        unreproduced = []
         n_new = 0
         n_known = 0
         os.makedirs(REPLAY_DIR, exist_ok=True)
@@ -112,10 +113,11 @@ class Report:
                     if sum(rs) >= 2:
                         break
                 if sum(rs) < min_repro:
-                    raise HarnessError(
-                        f"violation {fp!r} of {self.prop} did not reproduce on replay "
-                        f"({rs}); record={json.dumps(jsonable(rec))[:2000]}"
-                    )
+                    # not reproducible from a fresh state: never reported as a violation.  Kept
+                    # aside; if nothing else reproduces either, the run ends as a harness error
+                    # (unowned nondeterminism or state leaking between executions).
+                    unreproduced.append((fp, rec, rs))
+                    continue
                 rec["replays_reproduced"] = f"{sum(rs)}/{len(rs)}"
             h = hashlib.blake2b(fp.encode(), digest_size=5).hexdigest()
             path = os.path.join(REPLAY_DIR, f"{self.prop}-{h}.json")
@@ -132,6 +134,16 @@ class Report:
                 n_new += 1
                 lines.append(f"VIOLATION property={self.prop} replay={path}")
                 lines.append(f"  fingerprint: {fp}  (x{e['count']})")
+        if unreproduced:
+            self.coverage["unreproduced_fingerprints"] = [u[0] for u in unreproduced]
+            for fp, rec, rs in unreproduced:
+                print(f"NOT-REPRODUCED property={self.prop} fingerprint={fp} replays={rs} "
+                      f"record={json.dumps(jsonable(rec))[:600]}")
+            if not n_new and not n_known:
+                raise HarnessError(
+                    f"{len(unreproduced)} violation(s) of {self.prop} seen during exploration did not "
+                    "reproduce from a fresh state and nothing else was found: "
+                    + "; ".join(u[0] for u in unreproduced)[:1500])
         self.write_evidence(n_new, n_known)
         for ln in lines:
             print(ln)
